@@ -3,12 +3,20 @@
    (2 usage signed m n digits zone buffer obs nav)   zoned round trip
    (3 usage signed m n w v buffer obs nav)           binary round trip
    (4 usage k buffer obs nav)                        text X(k)
+   (5 usage picture buffer obs nav)                  DISPLAY text, ANY picture the decoder-side scanner accepts as
+                                                     not zoned decimal (edited pictures); picture = code points
+   (6 k picture sgn ints fracs point lp rp record obs)   TextUnpacker: a text record whose field at offset k (declared
+                                                     PIC X(k) before it) with the numeric DISPLAY picture holds the
+                                                     decimal text of a value (Estruct.decimal_text); obs = nav...value()
+   (7 k picture record obs)                          TextUnpacker: the same layout, arbitrary text in the record
+   (8 little key usage picture buffer obs)           Struct().value(schema, buffer): key = conversion keyword number,
+                                                     little = sys.byteorder is little; obs value (1 v) int | (3 bytes)
    buffer is what the runner wrote; the judge first checks it IS the specification's encoding.
    obs = estruct.unpack(clause, buffer); nav = the same field read through
    schema_iter/SchemaMaker/EBCDIC().nav(...).name(f).value(), or (2) when not observed. *)
 From Coq Require Import ZArith NArith List Bool.
 Import ListNotations.
-Require Import SR.Base.Sx SR.Base.Res SR.Base.Dec SR.Spec.Encode SR.Model.Estruct SR.Judge.JEstructCommon.
+Require Import SR.Base.Sx SR.Base.Res SR.Base.Dec SR.Spec.Encode SR.Model.Picture SR.Model.Estruct SR.Judge.JEstructCommon.
 Open Scope Z_scope.
 
 Definition nav_ok (nav : obs) (expected : pyval) : bool :=
@@ -22,6 +30,124 @@ Definition nav_agrees (nav : obs) (m : res pyval) : bool :=
   match nav with OBad => true | _ => obs_matches nav m end.
 
 Definition bad_case : sx := L [A 9; A 0; L [A 0]].
+
+(* ---- additions for the text branch / the text unpacker ---- *)
+Definition sx_of_opt_res (m : option (res pyval)) : sx :=
+  match m with Some r => sx_of_res sx_of_pyval r | None => L [A 2] end.
+
+(* the property on one observed call of the text branch: the CP037 decoding of the buffer, or - only
+   when the characters do not fit the classes of the picture - ValueError.  Never another string. *)
+Definition text_obs_ok (o : obs) (expected : pyval) (fits : bool) : bool :=
+  match o with
+  | OVal v => pyval_eqb v expected
+  | OErr c => (c =? 1) && negb fits
+  | OBad => false
+  end.
+
+Definition obs_matches_opt (o : obs) (m : option (res pyval)) : bool :=
+  match m with Some r => obs_matches o r | None => false end.
+
+Definition b2z (b : bool) : Z := if b then 1 else 0.
+
+Definition judge_text_any (c : sx) : sx :=
+  let usage := as_N (nth_sx 1 c) in
+  let s := as_Ns (nth_sx 2 c) in
+  let buffer := as_Ns (nth_sx 3 c) in
+  let o := obs_of_sx (nth_sx 4 c) in
+  let nav := obs_of_sx (nth_sx 5 c) in
+  match dec_parse s with
+  | Some (Ok r) =>
+      match text_pattern (p_elems r) with
+      | Ok ts =>
+          if p_zoned r || negb (N.eqb usage 11) || negb (forallb (fun b => (b <? 256)%N) buffer) then bad_case else
+          let text := map cp037 buffer in
+          let expected := VStr text in
+          let fits := fits_classes ts text in
+          let m := unpack_any usage s buffer in
+          let mnav := ebcdic_unpacker_value (if gen_numeric s then 6 else 0) usage s buffer in
+          let good := text_obs_ok o expected fits
+                      && match nav with OBad => true | _ => text_obs_ok nav expected fits end in
+          let agree := obs_matches_opt o m && match nav with OBad => true | _ => obs_matches_opt nav mnav end in
+          (* K-text-plus-sign: the picture holds a + ; its own wrong behaviour is re.error (code 7), or
+             ValueError on characters that fit *)
+          let own := match o with OErr e => (e =? 7) || ((e =? 1) && fits) | _ => false end in
+          let known := if has_plus ts && own then Some 2 else None in
+          let len_class := match Nat.compare (length buffer) (p_size r) with Eq => 0 | Lt => 1 | Gt => 2 end in
+          let branch := 500 + b2z fits + 2 * b2z (match m with Some (Ok _) => true | _ => false end)
+                        + 4 * b2z (has_plus ts) + 8 * b2z (has_optsign ts) + 16 * len_class in
+          verdict known good agree branch (L [sx_of_opt_res m; sx_of_pyval expected; of_bool fits])
+      | Err _ => bad_case
+      end
+  | _ => bad_case
+  end.
+
+(* TextUnpacker: the field of interest starts at k (after a PIC X(k) item) and is as wide as its picture *)
+Definition text_key (s : list N) : Z := if gen_numeric s then 6 else 5.
+
+Definition judge_text_unpacker (spec_built : bool) (c : sx) : sx :=
+  let k := as_nat (nth_sx 1 c) in
+  let s := as_Ns (nth_sx 2 c) in
+  match dec_parse s with
+  | Some (Ok r) =>
+      if spec_built then
+        let sgn := as_N (nth_sx 3 c) in
+        let ids := as_Ns (nth_sx 4 c) in
+        let fds := as_Ns (nth_sx 5 c) in
+        let point := as_bool (nth_sx 6 c) in
+        let lp := as_nat (nth_sx 7 c) in
+        let rp := as_nat (nth_sx 8 c) in
+        let record := as_Ns (nth_sx 9 c) in
+        let o := obs_of_sx (nth_sx 10 c) in
+        let slice := py_slice k (p_size r) record in
+        if negb (decimal_text_ok ids fds point && (sgn <? 3)%N && gen_numeric s
+                 && JEstructCommon.list_N_eqb slice (decimal_text sgn ids fds point lp rp)) then bad_case else
+        let expected := VDec (decimal_text_value sgn ids fds) in
+        let m := text_unpacker_value (text_key s) slice in
+        (* sign of a zero: dec_eqb ignores it; compare it here as well *)
+        let same_sign := match o with OVal (VDec d) => Bool.eqb (neg d) (sgn =? 2)%N | _ => false end in
+        let good := obs_matches o (Ok expected) && same_sign in
+        let agree := obs_matches_opt o m in
+        verdict None good agree (600 + Z.of_nat (Nat.min (length ids + length fds) 30)) (L [sx_of_opt_res m; sx_of_pyval expected])
+      else
+        let record := as_Ns (nth_sx 3 c) in
+        let o := obs_of_sx (nth_sx 4 c) in
+        let slice := py_slice k (p_size r) record in
+        let key := text_key s in
+        let m := text_unpacker_value key slice in
+        match m with
+        | None => L [A 0; A 799]                       (* NaN / Infinity spellings, huge exponents: not modelled *)
+        | Some mm =>
+            let agree := obs_matches o mm in
+            (* a string field must come back as the characters stored; for a numeric field the value of
+               an arbitrary text is what the model of Decimal(str) says (error class included) *)
+            let good := if key =? 5 then obs_matches o (Ok (VStr slice)) else agree in
+            verdict None good agree (700 + key * 10 + b2z (is_ok mm)) (L [sx_of_opt_res m])
+        end
+  | _ => bad_case
+  end.
+
+(* Struct().value *)
+Definition judge_struct (c : sx) : sx :=
+  let little := as_bool (nth_sx 1 c) in
+  let key := as_Z (nth_sx 2 c) in
+  let usage := as_N (nth_sx 3 c) in
+  let s := as_Ns (nth_sx 4 c) in
+  let buffer := as_Ns (nth_sx 5 c) in
+  let ob := nth_sx 6 c in
+  match struct_value little key usage s buffer with
+  | None => L [A 0; A 899]
+  | Some m =>
+      let agree :=
+        match m with
+        | Err e => (as_Z (nth_sx 0 ob) =? 1) && (as_Z (nth_sx 1 ob) =? exn_code e)
+        | Ok (SBytes b) => (as_Z (nth_sx 0 ob) =? 0) && (as_Z (nth_sx 0 (nth_sx 1 ob)) =? 3)
+                           && JEstructCommon.list_N_eqb (as_Ns (nth_sx 1 (nth_sx 1 ob))) b
+        | Ok (SV v) => obs_matches (obs_of_sx ob) (Ok v)
+        end in
+      (* the stored bytes unchanged / the integer the bytes spell in the machine's byte order: the model IS the
+         statement here (struct module semantics), so good = agree *)
+      verdict None agree agree (800 + b2z (is_ok m)) (L [A 0])
+  end.
 
 Definition judge (c : sx) : sx :=
   let kind := as_Z (nth_sx 0 c) in
@@ -69,4 +195,8 @@ Definition judge (c : sx) : sx :=
     let good := obs_matches o (Ok expected) && nav_ok nav expected in
     let agree := obs_matches o m && nav_agrees nav m in
     verdict None good agree (400 + Z.of_nat (Nat.min k 3)) (L [sx_of_res sx_of_pyval m; sx_of_pyval expected])
+  else if kind =? 5 then judge_text_any c
+  else if kind =? 6 then judge_text_unpacker true c
+  else if kind =? 7 then judge_text_unpacker false c
+  else if kind =? 8 then judge_struct c
   else bad_case.
